@@ -1,1 +1,53 @@
-From TL Require Import Lib.Base Gen.IgnoreGen Model.PyStr Model.Ignore Model.IgnoreSpec Model.IgnoreRun Actual.IgnoreActual.
+(* Props/C04Known.v — refutations: for each flag claimed `true` in Actual/IgnoreActual.v (and for each deviating linter
+   pipeline) a concrete abstract file of the domain on which the faithful model differs from the specification.
+   The same files are in corpus/C04 and are replayed on the implementation on every run. *)
+From TL Require Import Lib.Base Lib.GenTypes Gen.IgnoreGen Model.PyStr Model.Ignore Model.IgnoreSpec Model.IgnoreRun Actual.IgnoreActual.
+
+Definition refutes (a : list aline) (v : nat) (r : string) : Prop :=
+  file_ok a = true /\ target_ok a v = true /\ should_ignore ignore_actual false (render a) v r <> spec false a v r.
+
+(* a form feed shifts the parser's line numbers: the directive on line 2 is looked up on line 3 *)
+Definition w_formfeed : list aline := [LPlain (String c12 ""); LSame "y = 4242" Hash (Names "magic-numbers")].
+Theorem C04_splitlines_unicode_refuted : refutes w_formfeed 2 "magic-numbers.numeric-literal".
+Proof. vm_compute. repeat split; discriminate. Qed.
+
+Definition w_next_slash : list aline := [LNext "" Slashes (Names "magic-numbers"); LPlain "return 4242;"].
+Theorem C04_next_line_hash_only_refuted : refutes w_next_slash 2 "magic-numbers.numeric-literal".
+Proof. vm_compute. repeat split; discriminate. Qed.
+
+Definition w_file_slash : list aline := [LFile Slashes (Names "nesting"); LPlain "function f() {"].
+Theorem C04_file_hash_only_refuted : refutes w_file_slash 2 "nesting.excessive-depth".
+Proof. vm_compute. repeat split; discriminate. Qed.
+
+(* the violation on line 1 is outside (before) the block on lines 2-4, yet it is suppressed *)
+Definition w_before_block : list aline :=
+  [LPlain "x = 4242"; LStart "" Hash false (Names "magic-numbers"); LPlain "y = 1"; LEnd "" Hash].
+Theorem C04_block_end_before_refuted : refutes w_before_block 1 "magic-numbers.numeric-literal".
+Proof. vm_compute. repeat split; discriminate. Qed.
+
+Definition w_bare_line : list aline := [LSame "def f(a):" Hash Bare].
+Theorem C04_bare_line_unsupported_refuted : refutes w_bare_line 1 "nesting.excessive-depth".
+Proof. vm_compute. repeat split; discriminate. Qed.
+
+Definition w_bare_file : list aline := [LFile Hash Bare; LPlain "def f(a):"].
+Theorem C04_bare_file_unsupported_refuted : refutes w_bare_file 2 "nesting.excessive-depth".
+Proof. vm_compute. repeat split; discriminate. Qed.
+
+(* the bracket form names nesting only, yet magic-numbers inside the block is suppressed as well *)
+Definition w_start_bracket : list aline := [LStart "" Hash true (Names "nesting"); LPlain "x = 4242"; LEnd "" Hash].
+Theorem C04_start_rules_from_code_refuted : refutes w_start_bracket 2 "magic-numbers.numeric-literal".
+Proof. vm_compute. repeat split; discriminate. Qed.
+
+(* linters that never consult the shared parser: a same-line directive naming their rule suppresses nothing *)
+Definition w_lbyl : list aline := [LSame "    if key in d:" Hash (Names "lbyl")].
+Theorem C04_no_inline_support_refuted :
+  forallb (fun p => negb (suppressed ignore_actual (pipeline_of p "py") (render w_lbyl) 1 "lbyl.dict-key-check")) no_inline_support = true
+  /\ spec false w_lbyl 1 "lbyl.dict-key-check" = true.
+Proof. vm_compute. split; reflexivity. Qed.
+
+(* method-property: its own line check fires for a directive that names another rule *)
+Definition w_method_property : list aline := [LSame "    def get_x(self):" Hash (Names "nesting")].
+Theorem C04_own_line_check_only_refuted :
+  suppressed ignore_actual (pipeline_of "method_property" "py") (render w_method_property) 1 "method-property.should-be-property" = true
+  /\ spec false w_method_property 1 "method-property.should-be-property" = false.
+Proof. vm_compute. split; reflexivity. Qed.
